@@ -64,7 +64,7 @@ func runCLIFaults(args []string) int {
 	var samples []interface{}
 	execs := 0
 	cmds := []string{"copy", "diff", "sum", "sum-copy", "sum-diff", "view", "view-raw", "generate"}
-	faults := []string{"none", "textout-unopenable", "source-missing", "source-corrupt", "dest-dir-readonly", "dest-corrupt"}
+	faults := []string{"none", "textout-unopenable", "textout-full", "source-missing", "source-corrupt", "dest-dir-readonly", "dest-corrupt"}
 	for round := 0; round < rounds; round++ {
 		rnd := rand.New(rand.NewSource(seed*104729 + int64(round)))
 		lay := cliLayouts[rnd.Intn(len(cliLayouts))]
@@ -116,6 +116,11 @@ func runCLIFaults(args []string) int {
 				switch ft {
 				case "textout-unopenable":
 					textOut = filepath.Join(caseDir, "no-such-dir", "out.txt")
+				case "textout-full":
+					if _, err := os.Stat("/dev/full"); err != nil {
+						continue
+					}
+					textOut = "/dev/full"
 				case "source-missing":
 					os.Remove(s1)
 					os.Remove(s2)
